@@ -24,6 +24,9 @@ try:
         r0 = subprocess.run(["/venv/bin/python", a.demo], env=env, cwd=wt, capture_output=True, text=True, timeout=600)
         res["demo_clean_rc"] = r0.returncode
     r = sh(f"git -C {wt} apply {Path(a.patch).resolve()}")
+    if r.returncode:  # the tree moved on since the patch was written (a later fix: commit): merge it in
+        r = sh(f"git -C {wt} apply --3way {Path(a.patch).resolve()}")
+        res["applied_3way"] = r.returncode == 0
     res["applies"] = r.returncode == 0
     if not res["applies"]:
         res["apply_error"] = r.stderr[-300:]
